@@ -100,6 +100,14 @@ def status_stream(R, drv, rng, tier):
             sp_, st_ = c["stages"][-1]
             srcs_ = [p_ for p_, fl_ in st_.get("in", [])]
             c["stages"][-1] = (sp_, dict(cmd=b"vprobe S%d -- " % (len(c["stages"]) - 1) + b" ".join(srcs_), wd=b".", out=[], **{"in": st_.get("in", [])}))
+        if i % 4 == 3:
+            # a FILE output that carries `disable-recursion: true` (a former directory turned into a file by deleting the is-dir line)
+            for sp_, st_ in c["stages"]:
+                fo_ = [k_ for k_, (p_, fl_) in enumerate(st_.get("out", [])) if "d" not in fl_ and "s" not in fl_]
+                if fo_:
+                    p_, fl_ = st_["out"][fo_[0]]
+                    st_["out"][fo_[0]] = (p_, fl_ + "r")
+                    break
         names = [sp for sp, st in c["stages"]]
         ops = [("run", False, [])]
         if i % 4 == 2:
